@@ -4,9 +4,14 @@
    referring to an earlier enumerator: values, underlying type and ffi.string() of the
    implementation model equal the ideal.  The same run prints the declarations of the boundary
    alphabet for replay at the true widths (<<"ENUM", items>> with values in units of the
-   symbolic boundaries, see Sym).                                                          *)
+   symbolic boundaries, see Sym).
+   CharLevel > 0 adds the character-constant dimension (C11 6.4.4.4): an enumerator given by 'c' or
+   -'c' for c in every simple escape sequence, every one-digit octal escape and plain characters
+   (CharLevel = 1: a representative subset; 2: all; 3: all for the first enumerator, the subset after it;
+   for 2 and 3 only the declarations that contain a character constant are printed).  Numeric escapes of more than one digit are in the ideal (CharNat)
+   but not in this set: cffi's grammar rejects them (CffiCharOK), see design_notes/C10.md.        *)
 EXTENDS Enum
-CONSTANTS MaxLen, PrintUpTo, Full       \* Full: explicit values range over all of Lo..Hi, else over the boundary values
+CONSTANTS MaxLen, PrintUpTo, Full, CharLevel       \* Full: explicit values range over all of Lo..Hi, else over the boundary values
 VARIABLES nitems            \* explicit values as native integers (printed for replay)
 Names == <<"A", "B", "C", "D">>
 Lo == 0 - Pow2(LongBits - 1)
@@ -18,18 +23,28 @@ Boundary == {Lo, Lo + 1, 0 - Pow2(IntBits - 1) - 1, 0 - Pow2(IntBits - 1), 0 - 1
              Pow2(LongBits - 1) - 1, Pow2(LongBits - 1), Hi}
 ValueSet == IF Full THEN Lo..Hi ELSE Boundary
 
+\* spellings: \' \" \? \\ \a \b \f \n \r \t \v, \0..\7, and plain characters
+EscLetters == {39, 34, 63, 92, 97, 98, 102, 110, 114, 116, 118}
+AllChars == {<<BSL, c>> : c \in EscLetters \cup (48..55)} \cup {<<c>> : c \in {32, 33, 48, 65, 97, 110, 126}}
+FewChars == {<<BSL, 97>>, <<BSL, 110>>, <<BSL, 92>>, <<BSL, 48>>, <<97>>}
+\* CharLevel 3 (quick tier): all spellings for the first enumerator, the subset for later ones
+CharSet == IF CharLevel = 0 THEN {}
+           ELSE IF CharLevel = 1 \/ (CharLevel = 3 /\ Len(nitems) > 0) THEN FewChars ELSE AllChars
+HasChar(ns) == \E i \in 1..Len(ns) : ns[i].k = "char"
+
 ToItems(ns) == [i \in 1..Len(ns) |-> IF ns[i].k = "explicit" THEN [ns[i] EXCEPT !.v = Z(@)] ELSE ns[i]]
 items == ToItems(nitems)
 
 Init == nitems = <<>>
 Add(it) == /\ Len(nitems) < MaxLen
            /\ nitems' = Append(nitems, it)
-           /\ (Len(nitems') <= PrintUpTo /\ Defined(ToItems(nitems'), Values(ToItems(nitems')))
+           /\ (Len(nitems') <= PrintUpTo /\ (CharLevel >= 2 => HasChar(nitems')) /\ Defined(ToItems(nitems'), Values(ToItems(nitems')))
                  => PrintT(<<"ENUM", nitems'>>))
 Next == LET nm == Names[Len(nitems) + 1] IN
-        \/ \E v \in ValueSet : Add([name |-> nm, k |-> "explicit", v |-> v, ref |-> 0])
-        \/ Add([name |-> nm, k |-> "implicit", v |-> 0, ref |-> 0])
-        \/ \E r \in 1..Len(nitems) : Add([name |-> nm, k |-> "ref", v |-> 0, ref |-> r])
+        \/ \E v \in ValueSet : Add([name |-> nm, k |-> "explicit", v |-> v, ref |-> 0, sp |-> <<>>, cneg |-> FALSE])
+        \/ Add([name |-> nm, k |-> "implicit", v |-> 0, ref |-> 0, sp |-> <<>>, cneg |-> FALSE])
+        \/ \E r \in 1..Len(nitems) : Add([name |-> nm, k |-> "ref", v |-> 0, ref |-> r, sp |-> <<>>, cneg |-> FALSE])
+        \/ \E c \in CharSet, ng \in BOOLEAN : Add([name |-> nm, k |-> "char", v |-> 0, ref |-> 0, sp |-> c, cneg |-> ng])
 Spec == Init /\ [][Next]_nitems
 
 \* every declared value, its neighbours, and the ends of the ranges
